@@ -13,4 +13,5 @@ INVARIANT Emit
 PROPERTY Purity
 PROPERTY Locality
 PROPERTY FreshOnSimulate
+PROPERTY ParamsChangeOnlyInFit
 CHECK_DEADLOCK FALSE
